@@ -20,4 +20,5 @@ func init() {
 // arguments (e.g. --replay <file> is passed as tier "--replay", args [file]).
 var Registry = map[string]func(tier string, args []string) int{
 	"C10": func(t string, a []string) int { return C10(t) },
+	"C03": func(t string, a []string) int { return C03(t) },
 }
